@@ -281,7 +281,8 @@ static void runScenario(uint64_t caseNo, Rng & rng, const char * polName)
 		}
 		// a sixth of the histories take the list(s) across the wrap of the generation counter while the threads run: the renumbering of
 		// all nodes that the wrap triggers (inside append/prepend/insert) must be as well synchronised as any other structural change
-		const bool nearWrap = rng.chance(1, 6);
+		static const bool allNearWrap = ctx().optInt("nearwrap", 0) != 0; // C19: every homogeneous history starts just before the wrap
+		const bool nearWrap = rng.chance(1, 6) || (allNearWrap && Target::hasQueries);
 		if(nearWrap) {
 			count("near_wrap_histories");
 			for(int key = 0; key < Target::nkeys; ++key) {
